@@ -14,9 +14,6 @@ import (
 	"istio.io/istio/pkg/kube/krt"
 )
 
-// statsHook is set by debugging builds only.
-var statsHook func(reset bool)
-
 // runtimeConsts is the alphabet of runtime constants (map layout + select order) cases are run under.
 var runtimeConsts = []uint64{11400714819323198485, 0x5851f42d4c957f2d, 0x2545f4914f6cdd1d}
 
@@ -343,13 +340,7 @@ func runExec(t *testing.T, p *program, ops []int, mask int, reg int, rc int, ver
 		// notification on" and "accept the next one"). This makes a case independent of what ran before it
 		// (replay = exploration) and lets the constant be an enumerated dimension.
 		runtime.VerifSetMapRand(runtimeConsts[rc%len(runtimeConsts)])
-		if statsHook != nil {
-			statsHook(true)
-		}
 		synctest.Test(t, func(*testing.T) { body() })
-		if statsHook != nil {
-			statsHook(false)
-		}
 	}()
 	out.Obs = obs.String()
 	if verbose {
